@@ -683,11 +683,11 @@ Proof.
   destruct (mode_is_dir (st_mode s)) eqn:Ed; cbn [orb negb andb].
   - intros H. inversion H; subst. split; [auto|discriminate].
   - destruct (mode_is_symlink (st_mode s)) eqn:Es; cbn [orb negb andb].
-    + intros H. inversion H; subst. split; [auto|]. rewrite andb_false_r. discriminate.
-    + destruct (is_nil (st_linkname s)) eqn:En; cbn [negb].
+    + intros H. inversion H; subst. split; [auto|]. discriminate.
+    + destruct (is_nil (st_linkname s)) eqn:En; cbn [negb andb].
       * intros H. inversion H; subst. split.
         -- intros q [E|Hq]; auto. right. split; auto. rewrite orb_true_r. reflexivity.
-        -- rewrite andb_false_r. discriminate.
+        -- discriminate.
       * destruct (mem_bytes (st_linkname s) seen) eqn:Em; intros H; inversion H; subst.
         split; [auto|]. intros _. apply mem_bytes_In. exact Em.
 Qed.
@@ -769,6 +769,75 @@ Proof.
     + apply P3; [discriminate|exact Hsol].
 Qed.
 
+
+(* the same for an entry both validators have accepted, whatever the bookkeeping of ids: the
+   metadata branch of the receive loop (Model/RecvMeta.v) hands entries to the walker this way *)
+Lemma feed_merge idx s st acc v' seen' files next :
+  MInv st acc -> clean_path (st_path s) ->
+  vstep (r_vstk st) (item_of s) = Some v' -> hl_step (r_seen st) s = Some seen' ->
+  let st1 := set_valid st v' seen' files next in
+  GBase st1 (acc ++ [item_of s]) /\ r_old st1 = []
+  /\ MInv (diff_feed c idx s (r_old st1) st1) (acc ++ [item_of s]).
+Proof.
+  intros [[G A] Hold] Hcl Ev Eh. cbv zeta.
+  set (it := item_of s) in *.
+  pose proof (vstep_ok_path _ _ _ Ev) as Hok. change (vpath it) with (st_path s) in Hok.
+  pose proof (vstep_refines (r_vstk st) it (g_R st acc G) Hok) as Hr. rewrite Ev in Hr. destruct Hr as [Hcv HR'].
+  destruct (cvstep_sound _ _ _ _ (g_vinv st acc G) (okitem_names it Hok) Hcv) as [Hspec HI'].
+  change [citem_of it] with (map citem_of [it]) in HI'. rewrite <- map_app in HI'.
+  destruct (cvstep_shape _ _ _ (inv_chain _ _ (g_vinv st acc G)) Hcv) as [Hparent Hshape].
+  cbn [ipath citem_of it item_of vpath] in Hparent, Hshape.
+  destruct (hl_step_seen _ _ _ Eh) as [Hseen' Hlinkseen].
+  set (st1 := set_valid st v' seen' files next).
+  assert (G1 : GBase st1 (acc ++ [it])).
+  { apply (GBase_ext st st1 acc it v'); simpl; auto. intros q Hq. destruct (Hseen' q Hq) as [H|[H _]]; auto. }
+  split; [exact G1|]. split; [exact Hold|].
+  assert (Eold : r_old st1 = []) by (simpl; exact Hold). rewrite Eold. cbn [diff_feed].
+  set (st2 := set_diff st1 [] []).
+  assert (G2 : GBase st2 (acc ++ [it])).
+  { apply (GBase_quiet st1 st2 _ b0 G1); try (unfold b0; lia); simpl.
+    - apply step_same; [apply (g_wf st acc G)|apply (g_next st acc G)].
+    - repeat split.
+    - apply G1. }
+  assert (Ecs : comps (st_path s) = removelast (comps (st_path s)) ++ [last (comps (st_path s)) []]) by (apply split_comps; auto).
+  assert (Hpre : live st2 = true -> change_pre 0 st2 (st_path s) s (acc ++ [it])).
+  { intros L. assert (L0 : live st = true) by exact L. destruct (A L0) as [A1 A2 A3].
+    unfold change_pre. cbn [r_fs st2 st1 set_diff set_valid r_pipes].
+    split; [exact Hok|]. split; [exact Hcl|]. split.
+    - destruct Hparent as [l Hl]. apply In_map_ce in Hl. destruct Hl as (ds & Hin & Eds).
+      rewrite <- Eds. apply (A2 ds l Hin).
+    - split; [exact A1|]. split.
+      + intros _ Hhb. pose proof (Hlinkseen Hhb) as Hin.
+        destruct (In_accpaths_clean acc _ (g_acc st acc G) (g_seen st acc G _ Hin)) as [Hokl _].
+        split; auto. pose proof (A3 _ Hin) as Hs. rewrite (split_comps _ Hokl) in Hs. apply safe_prefix in Hs. exact Hs.
+      + split.
+        * intros id pp Hin. apply (earlier_not_below acc it (pp_path pp) Hspec). apply (g_pipes st acc G id pp Hin).
+        * intros _. rewrite accpaths_app. apply in_or_app. right. left. reflexivity. }
+  destruct (apply_change_inv idx 0 (st_path s) s st2 (acc ++ [it]) G2 Hpre) as (G3 & (F1 & F2 & F3 & _) & Hpost).
+  set (st3 := apply_change c idx 0 (st_path s) s st2) in *.
+  split; [|rewrite F3; reflexivity]. split; [exact G3|].
+  intros L3. destruct (Hpost L3) as (L2 & P1 & P2 & P3).
+  assert (L0 : live st = true) by exact L2. destruct (A L0) as [A1 A2 A3].
+  assert (Hkeep : forall q, In q (accpaths acc) -> safe (r_fs st) D (comps q) -> safe (r_fs st3) D (comps q)).
+  { intros q Hq Hs. apply (proj1 (P2 (comps q) ltac:(apply (earlier_not_below acc it q Hspec Hq)) ltac:(apply (In_accpaths_clean acc q (g_acc st acc G) Hq)))). exact Hs. }
+  constructor.
+  - exact P1.
+  - intros ds l Hin. rewrite F1 in Hin. cbn [r_vstk st2 st1 set_diff set_valid] in Hin.
+    assert (Hin' : In (pcomps ds, l) (map ce v')).
+    { apply in_map_iff. exists (ds, l). split; auto. }
+    destruct (Hshape _ _ Hin') as [(Hp & l' & Hl')|(E1 & E2 & _)].
+    + apply In_map_ce in Hl'. destruct Hl' as (ds' & Hin2 & Eds).
+      refine (proj1 (P2 (pcomps ds) _ _) _).
+      * rewrite Ecs. apply is_prefix_not_longer. exact Hp.
+      * intros t Ht Hint. apply (Hcl t Ht). apply removelast_In. apply (prefix_In _ _ t Hp Hint).
+      * rewrite <- Eds. apply (A2 ds' l' Hin2).
+    + rewrite E1. apply P3; [discriminate|]. unfold solid. cbn [isdir citem_of it item_of visdir] in E2.
+      unfold st_is_dir in E2. rewrite E2. reflexivity.
+  - intros q Hq. rewrite F2 in Hq. cbn [r_seen st2 st1 set_diff set_valid] in Hq.
+    destruct (Hseen' q Hq) as [H|[-> Hsol]].
+    + apply Hkeep; [apply (g_seen st acc G q H)|apply (A3 q H)].
+    + apply P3; [discriminate|exact Hsol].
+Qed.
 
 (* ---------------- the loop ---------------- *)
 Lemma recv_data_old idx id d st : r_old (recv_data c idx id d st) = r_old st.
